@@ -74,6 +74,20 @@ PROPS = {
         assumptions=["both tokens of a comparison come from trees built with the same interner (the documented precondition of text_eq)"],
         not_yet_proved=[],
     ),
+    "C12": dict(
+        runs=runs([("text", "release")], [("text", "release"), ("text", "debug"), ("text", "lasso")]),
+        rule="cases = every text of <= 3 (thorough 4) characters over {a, é, →} + 120 (thorough 1500) random texts of 4-17 characters over {a, b, +, é, →}; each is "
+             "built as a tree in one of 4 chunkings (whole / 1 char / 2 chars / random 1-3, with empty tokens, empty nodes, nested nodes, static tokens) "
+             "together with a second tree over the same interner holding the same text in another chunking, the text with one character changed, a prefix, or "
+             "an extension; views: both roots, every slice with character-boundary ends of short texts (24 random ones of long texts) through all five slice "
+             "argument forms, slices of slices, out-of-range and reversed slices (must panic); on every view: len, is_empty, to_string (5 routes), chunks, "
+             "contains/find for 6 probe characters (inside and outside the text), char_at at every boundary offset and beyond the end, == against the "
+             "string / a longer string / a prefix / a one-character variant (4 directions); == between all (or 60 random) ordered pairs of views; "
+             "non-trivial = an answer was compared with the materialised string; distinct = distinct op text",
+        assumptions=["views have character-boundary ends (the documented domain of the string operations); chunk slicing at other offsets panics in both model and code and is outside the property"],
+        not_yet_proved=["chunks_tree: the chunk list of a view (tokens_with_ranges + per-token slices) concatenates to the slice of the node's text at the view's range "
+                        "(tree-level; the list-level theorems take the chunk list as given; tied by correspondence and by the oracle, which checks the concatenation for every view)"],
+    ),
     "C13": dict(
         runs=runs([("queries", "release")], [("queries", "release"), ("queries", "debug")]),
         rule="cases = every tree with <= 4 (thorough 5) elements over {interned 'a', interned '', 'éb', static ''} incl. empty nodes and zero-length tokens at every "
